@@ -63,6 +63,18 @@ pub fn byte_subs(prop: &str) -> Vec<Sub> {
     }
 }
 
+/// sub-checks that are run once more against the library built without optimisation (deep / long / absurd inputs, where
+/// stack depth and un-inlined code paths matter)
+pub fn deep_subs(prop: &str) -> Option<Vec<&'static str>> {
+    match prop {
+        "C03" => Some(vec!["c03.declared-lengths", "c03.state-observation", "c03.header-body"]),
+        "C16" => Some(vec!["c16.single"]),
+        "C17" => Some(vec!["c17.single", "c17.population"]),
+        "C18" => Some(vec!["c18.single"]),
+        _ => None,
+    }
+}
+
 /// fuzz inputs of this property are [control byte] ++ rest and need the header re-synthesised
 pub fn fuzz_framed(prop: &str) -> bool {
     prop == "C04"
